@@ -500,7 +500,7 @@ def main(tier):
         ck.extra.setdefault("code_reached", {}).update({k: v for k, v in o[1]["reached"].items() if k.startswith("jaxley")})
     for (k, can), oc in zip(CANARIES, outs[len(args):]):
         ref = oc[0] == "ok" and not oc[1]["error"] and any(r["status"] != "proved" for r in oc[1]["results"])
-        ck.canaries.append((f"{can[0]}: {can[2][:50]!r} -> {can[3][:50]!r}", ref))
+        ck.canary(f"{can[0]}: {can[2][:50]!r} -> {can[3][:50]!r}", ref, oc)
     ck.bounded = {"evaluations": evals, "distinct_nontrivial": cases, "exhaustive": tier != "quick", "refused_operations": refused, "states_simulated_symbolically": len(states),
                   "rule": "alphabet of 33 (cell) / 35 (network) view x operation letters (insert/delete_channel of HH, Na, K, Km, CaT, CaL on various views; set; add_to_group; record; delete_recordings; stimulate; clamp; delete_stimuli (view and module); delete_clamps; "
                           "make_trainable; delete_trainables; init_states; set_ncomp (cell) / connect and set on a synapse view (network)) on an irregular cell (ncomp [2,1,3]) and a 2-cell network with 2 synapse types; all histories of depth 1 and 2, depth 3 with stride 37 (quick) / all (thorough); "
